@@ -33,6 +33,21 @@ def refName (r : String) : Option String :=
   else if r.startsWith "#/$defs/" then some (r.drop 8).toString
   else none
 
+/-- `type: [T, "null"]` is read as `anyOf [<the schema with type T>, null]`; a `null` among the
+    `enum` values belongs to the null branch -/
+def nullableMember (t : String) (kv : String × Json) : String × Json :=
+  if kv.1 = "type" then ("type", Json.str t)
+  else if kv.1 = "enum" then
+    (match kv.2 with
+     | .arr vs => ("enum", .arr (vs.filter (fun v => match v with | .null => false | _ => true)))
+     | o => ("enum", o))
+  else kv
+
+def enumLacksNull (j : Json) : Bool :=
+  match jget j "enum" with
+  | some (.arr vs) => !(vs.any (fun v => match v with | .null => true | _ => false))
+  | _ => false
+
 partial def parseSchema (j : Json) : Option Schema :=
   match j with
   | .bool true => some .any
@@ -55,11 +70,11 @@ partial def parseSchema (j : Json) : Option Schema :=
       | none =>
       match jget j "type" with
       | some (.arr [.str t, .str "null"]) =>
-        (parseSchema (.obj (Json.sortObj ((match j with | .obj kvs => kvs | _ => []).map
-          (fun (kv : String × Json) => if kv.1 = "type" then ("type", Json.str t) else kv))))).map (fun s => .anyOf [s, .null])
+        (parseSchema (.obj (Json.sortObj ((match j with | .obj kvs => kvs | _ => []).map (nullableMember t))))).map
+          (fun s => if enumLacksNull j then s else .anyOf [s, .null])
       | some (.arr [.str "null", .str t]) =>
-        (parseSchema (.obj (Json.sortObj ((match j with | .obj kvs => kvs | _ => []).map
-          (fun (kv : String × Json) => if kv.1 = "type" then ("type", Json.str t) else kv))))).map (fun s => .anyOf [.null, s])
+        (parseSchema (.obj (Json.sortObj ((match j with | .obj kvs => kvs | _ => []).map (nullableMember t))))).map
+          (fun s => if enumLacksNull j then s else .anyOf [.null, s])
       | some (.str ty) =>
         (match jget j "enum" with
          | some (.arr vs) => if onlyKeys j ["type", "enum"] then some (.enumVals vs) else none
